@@ -46,6 +46,7 @@ def install(eng):
     B[_bi.sorted] = b_sorted
     B[_bi.type] = lambda e, st, a, k, n: e.new_object(st, 'type')
     B[_bi.enumerate] = b_enumerate
+    B[_bi.zip] = b_zip
     B[_bi.reversed] = b_reversed
     B[_math.isnan] = b_math_isnan
     B[_math.isinf] = b_math_isinf
@@ -274,6 +275,9 @@ def b_float(eng, st, args, kwargs, node):
                 eng.raise_(OverflowError, node)
         return eng.coerce(st, x, KFloat)
     if k is KStr:
+        lit = z3.simplify(v.term)
+        if z3.is_string_value(lit) and lit.as_string().strip().lower().lstrip("+-") in ("inf", "infinity", "nan"):
+            return SV(KFloat, f_const(float(lit.as_string())))
         if not eng.spec_mode and not st.branch(_float_of_str_ok(v.term), "float(str)"):
             eng.raise_(ValueError, node)
         return SV(KFloat, _float_of_str(v.term))
@@ -643,6 +647,21 @@ def count_less(row, n, x):
     return uf("count_less", row.sort(), z3.IntSort(), z3.IntSort(), z3.IntSort())(row, n, x)
 
 
+def count_lt_f(row, n, x):
+    """|{i in [0,n) : row[i] < x}| for a float row; defining equations: count(row, 0, x) = 0,
+    count(row, k+1, x) = count(row, k, x) + (1 if row[k] < x else 0)."""
+    return uf("count_lt_f", row.sort(), z3.IntSort(), F(), z3.IntSort())(row, n, x)
+
+
+def count_gt_f(row, n, x):
+    return uf("count_gt_f", row.sort(), z3.IntSort(), F(), z3.IntSort())(row, n, x)
+
+
+def rank_in_set(has, x):
+    """|{k : has[k] and k < x}| for a finite int set given by its membership row."""
+    return uf("rank_in_set", has.sort(), z3.IntSort(), z3.IntSort())(has, x)
+
+
 def all_distinct(row, n):
     return uf("all_distinct", row.sort(), z3.IntSort(), z3.BoolSort())(row, n)
 
@@ -731,6 +750,22 @@ def b_enumerate(eng, st, args, kwargs, node):
         it = getter(i)
         return SV(KTuple([KInt, it.kind]), None, items=[SV(KInt, start.term + i), it])
     return SV(KConst, None, const=("seq", n, get, None))
+
+
+def b_zip(eng, st, args, kwargs, node):
+    """zip(a, b, ...): tuples up to the shortest argument (strict= unsupported)."""
+    _use("zip")
+    if kwargs:
+        raise Unsupported("zip(strict=...)")
+    seqs = [eng.as_sequence(st, a, node) for a in args]
+    n = seqs[0][0]
+    for m, _ in seqs[1:]:
+        n = z3.If(m < n, m, n)
+
+    def get(i):
+        items = [g(i) for _, g in seqs]
+        return SV(KTuple([it.kind for it in items]), None, items=items)
+    return SV(KConst, None, const=("seq", z3.simplify(n), get, None))
 
 
 def b_reversed(eng, st, args, kwargs, node):
@@ -850,6 +885,19 @@ def m_val_items(eng, st, recv, args, kwargs, node):
 
 # --------------------------------------------------------------------------------------------------
 # comprehensions
+def _mentions(term, var):
+    seen, todo = set(), [term]
+    while todo:
+        t = todo.pop()
+        if t.get_id() in seen:
+            continue
+        seen.add(t.get_id())
+        if z3.eq(t, var):
+            return True
+        todo.extend(t.children())
+    return False
+
+
 def comprehension(eng, st, node, what, frame=None):
     """[elt for x in src if c]: result characterised by quantified axioms (DESIGN 3.2): without a
     filter, len and pointwise map; with a filter, a strictly increasing source-index map and its
@@ -891,6 +939,12 @@ def comprehension(eng, st, node, what, frame=None):
             st.heap[n_] = z3.Store(eng.harr(st, n_), out.term, n)
             src_j = getter(j)
             trig = [arr[j]] + ([src_j.term] if src_j.term is not None and src_j.kind is not KConst else [])
+            if isinstance(src_j.kind, KTuple) and src_j.term is None:
+                # zip/enumerate/items sources: every component that depends on the index is an alternative trigger
+                for it in (src_j.items or []):
+                    if it.term is not None and it.kind is not KConst and not z3.is_int_value(z3.simplify(it.term)) \
+                            and not z3.eq(it.term, j) and _mentions(it.term, j):
+                        trig.append(it.term)
             eng.assume(st, qforall([j], z3.Implies(z3.And(0 <= j, j < n), arr[j] == eltc.term), patterns=trig))
         else:
             m = st.fresh("compn", z3.IntSort())
@@ -1145,6 +1199,17 @@ def m_list_sort(eng, st, recv, args, kwargs, node):
         old_s = z3.simplify(old)
         eng.assume(st, z3.Implies(all_distinct(old_s, n), qforall([j], z3.Implies(z3.And(0 <= j, j < n), count_less(old_s, n, arr[j]) == j),
                                                                   patterns=[arr[j]])))
+    if k.elem is KFloat:
+        # order-statistic facts of sorting a NaN-free float list (count_lt/count_gt(row, n, x) = number of entries
+        # below/above x): the j-th output has at least j+1 inputs <= it and at least n-j inputs >= it
+        old_s = old
+        x = z3.Const("ls_x", F())
+        nonan = qforall([i], z3.Implies(z3.And(0 <= i, i < n), z3.Not(f_is_nan(old_s[i]))), patterns=[old_s[i]])
+        clt, cgt = count_lt_f(old_s, n, x), count_gt_f(old_s, n, x)
+        rng = z3.And(0 <= j, j < n, z3.Not(f_is_nan(x)))
+        eng.assume(st, z3.Implies(nonan, z3.And(
+            qforall([j, x], z3.Implies(rng, z3.If(f_lt(arr[j], x), clt >= j + 1, clt <= j)), patterns=[z3.MultiPattern(arr[j], clt)]),
+            qforall([j, x], z3.Implies(rng, z3.If(f_lt(x, arr[j]), cgt >= n - j, cgt <= n - 1 - j)), patterns=[z3.MultiPattern(arr[j], cgt)]))))
     st.heap[e_] = z3.Store(eng.harr(st, e_), recv.term, arr)
     st.ghost["last_sorted"] = recv
     st.ghost["last_sorted_heap"] = dict(st.heap)
